@@ -4,6 +4,7 @@ import Driver.TaHist
 import Driver.MtHist
 import Driver.BddChk
 import Driver.ParseChk
+import Driver.MetaChk
 import Vata.Proofs.LtsSim
 /-!
 # vdriver – the model side of the correspondence check
@@ -334,6 +335,7 @@ def dispatch (kind : String) (args res : List String) : Except String (Findings 
   | "tah" => TaHist.check args res
   | "mth" => MtHist.check false args res
   | "parse" => ParseChk.check args res
+  | "meta" => MetaChk.check args res
   | "bddincl" => BddChk.checkIncl args res
   | "bddinclall" => BddChk.checkInclAll args res
   | "bddh" => BddChk.checkHist args res
